@@ -2566,7 +2566,9 @@ PIP_Solution_Node
 
         WEIGHT_ADD(140);
         if (is_parameter) {
-          p_row.insert(p_index, coeff_i * denom);
+          // NOTE: the rows of non-basic variables met before this parameter
+          // may already have contributed to this coefficient: add to it.
+          add_mul_assign(p_row[p_index], coeff_i, denom);
           ++p_index;
         }
         else {
